@@ -10,13 +10,12 @@ PROPS["C26"] = {
             "c26.random: 1..8 (5%: 9..16) vertices, random density, one third DAGs (half of them relabelled), parallel edges and self loops allowed; "
             "four cases per graph (transpose, closure, tarjan, longest path); distinct = distinct (kind, graph); non-trivial = at least 2 vertices",
     "modelled": "util/graph/transpose.go, matrix.go (Closure, Graph), tarjan.go, path.go mirrored step by step (recursion by fuel = vertex count + 1)",
-    "partial": "transpose and Matrix.Closure: universal theorems about the model. Tarjan and LongestPath: certifying checkers proved sound for all graphs and all outputs "
-               "(C26_scc_certificate_sound, C26_longest_path_certificate_sound) and evaluated on the implementation's real output for every generated graph; "
-               "a direct proof that the Tarjan/DFS models always pass their certificate is not done",
-    "level_text": "Universal Coq theorems: Transpose reverses every edge with multiplicity; the in-place Warshall loop of Matrix.Closure yields exactly reachability (proved from the loop invariant). "
-                  "For Tarjan and LongestPath, boolean certificates (partition, mutual reachability, reverse topological order, onStack contract; nil iff cyclic, valid path, maximal among all paths) are proved sound for every graph and every output, "
-                  "then evaluated on graph.Tarjan/LongestPath output for all graphs <= 3 vertices (quick) / 4 vertices (thorough) and random larger ones; step-by-step models are compared too.",
-    "level_note": "Trusted: Coq kernel, extraction, glue. Tarjan/LongestPath correctness is per-output (certificate) rather than a once-and-for-all theorem about the algorithm. Graphs with < 2 vertices: Tarjan returns early (the property statement excludes them).",
-    "technique": "Coq proof (Warshall invariant, transpose) + proved-sound certificate checkers run on every implementation output + model correspondence",
+    "partial": "",
+    "level_text": "Universal Coq theorems about the step-by-step models, all inputs, no size bound: Transpose reverses every edge with multiplicity; the in-place Warshall loop of Matrix.Closure yields exactly reachability; "
+                  "Tarjan (C26_tarjan_spec, direct invariant proof over index/lowlink/stack/onStack with the call chain as ghost state): for every graph with >= 2 vertices the fuel n+1 suffices, the stack ends empty, every vertex is reported in exactly one component, every component is strongly connected, no earlier component reaches a later one (reverse topological order, hence the components are exactly the SCCs), and onStack marks exactly the component members among the successors; "
+                  "LongestPath (C26_longest_path_spec): for every graph with >= 1 vertex the DFS model returns None iff the graph is cyclic, else a valid path that no path exceeds. "
+                  "The certificate checkers are proved sound AND complete, the models' outputs are proved to pass them, and they are still evaluated on graph.Tarjan/LongestPath output for all graphs <= 3 vertices (quick) / 4 vertices (thorough) and random larger ones; step-by-step models are compared too.",
+    "level_note": "Trusted: Coq kernel, extraction, glue; the tie between the Gallina models and the Go code is the sampled correspondence check. Graphs with < 2 vertices: Tarjan returns early (C26_tarjan_small; the property statement excludes them). The zero-vertex graph: LongestPath returns the empty slice (C26_longest_path_empty).",
+    "technique": "Coq proof (Warshall invariant, transpose, Tarjan index/lowlink invariant in the style of Chen-Cohen-Levy-Merz-Thery, DFS height/link invariant) + proved sound-and-complete certificate checkers run on every implementation output + model correspondence",
     "assumptions": ["edges name vertices < n (Go would panic otherwise)"],
 }
